@@ -642,7 +642,8 @@ func (g *Generator) generateBindingFile(file *protogen.File) error {
 	gf.P("if err != nil {")
 	gf.P("// Check if error is already a proto.Message (e.g., custom proto error types)")
 	gf.P("// If so, pass it directly - defaultErrorResponse will preserve its structure")
-	gf.P("if _, ok := err.(proto.Message); ok {")
+	gf.P("var protoErr proto.Message")
+	gf.P("if errors.As(err, &protoErr) {")
 	gf.P("writeErrorWithHandler(w, r, err, errorHandler)")
 	gf.P("return")
 	gf.P("}")
@@ -1050,7 +1051,8 @@ func (g *Generator) generateDefaultErrorResponseFunc(gf *protogen.GeneratedFile)
 	gf.P("return handlerErr")
 	gf.P("}")
 	gf.P("// Check if error is already a proto.Message (e.g., custom proto error types)")
-	gf.P("if protoErr, ok := err.(proto.Message); ok {")
+	gf.P("var protoErr proto.Message")
+	gf.P("if errors.As(err, &protoErr) {")
 	gf.P("return protoErr")
 	gf.P("}")
 	gf.P("return &sebufhttp.Error{Message: err.Error()}")
